@@ -280,6 +280,7 @@ def run(report, tier):
                                   "decimal_amount_box": "|.| <= 1e17, ta, pm != 0, paths without fpdec overflow",
                                   "type_pairs": "quick: (Length,Duration), (Mass,AmountT), (AmountT,Duration), (Mass,Length); thorough adds (DataVolume,Duration), (Duration,DataVolume), (Length,AmountT), (Energy,Mass); all unit triples"})
             cands = pool.run(report, task, tasks)
+            pool.cross_check(report)
             E.native_confirm(report, "C13", cands, desc, oracle, probes=probes3)
             fut.result()
     finally:
